@@ -192,3 +192,66 @@ invariant(M + ':Bucket.put', 0, 'while True',
            'strategy.node == self and alive(strategy)',
            'node is not None and exists(lambda j: 0 <= j and j < len(self.children) and '
            '   self.children[j] == node, "Int")'])
+
+
+# ------------------------------------------------------------------ Cell._find_placements
+@spec
+def evicted_ok(evicted, queue, servers, lo):
+    """Victims of this cycle whose turn is still to come (index >= lo): unplaced, identity kept,
+    remembered server is a member.  (Entries of instances whose turn was skipped - blacklisted or
+    over their utilisation cap - stay in the map and are never looked at again.)"""
+    return forall(lambda a: implies(a in evicted,
+                                    0 <= qidx(queue, a) and qidx(queue, a) < len(queue) and
+                                    queue[qidx(queue, a)] == a and
+                                    evicted[a][0].name in servers and servers[evicted[a][0].name] == evicted[a][0] and
+                                    implies(lo <= qidx(queue, a), a.server is None and
+                                            (a.identity_group_ref is None or a.identity is not None))),
+                  'Application')
+
+
+@spec
+def renew_ok(queue, lo):
+    """No renewal is pending.  `renew` is written by no production code except line 1736 of this very
+    function, which only re-arms it when it was already set: it is False in every reachable state
+    (DESIGN 7, observation O1: with `renew` set by hand, evicting a renewing instance trips the
+    assertion at the top of its own turn)."""
+    return forall(lambda j: implies(lo <= j and j < len(queue), not queue[j].renew), 'Int')
+
+
+@spec
+def cycle_ctx(servers):
+    return tree_ok(servers) and all_strategies_ok() and strat_nodes_ok()
+
+
+FIND_MODIFIES = [
+    'alloc',
+    ('Application.server', 'lambda a: True'), ('Application.evicted', 'lambda a: True'),
+    ('Application.unschedule', 'lambda a: True'), ('Application.placement_expiry', 'lambda a: True'),
+    ('Application.renew', 'lambda a: True'), ('Application.identity', 'lambda a: True'),
+    ('Application.lease', 'lambda a: True'),
+    ('IdentityGroup.available', 'lambda g: True'),
+    ('Server.apps', 'lambda r: in_cell(r)'),
+    ('Node.free_capacity', 'lambda r: True'), ('Node.affinity_counters', 'lambda r: True'),
+    ('Bucket.affinity_strategies', 'lambda r: is_bucket(r) and in_cell(r)'),
+    ('SpreadStrategy.current_idx', 'lambda r: True'),
+]
+
+contract(M + ':Cell._find_placements',
+         types={'queue': 'List[Application]', 'servers': 'Dict[Name,Server]',
+                'evicted': 'Dict[Application,Tuple[Server,Opt[Real]]]',
+                'reversed_queue': 'List[Application]'},
+         requires=['in_cell(self)', 'queue_ok(queue)', 'srv_ok(servers)', 'link_ok(queue, servers)', 'back_ok(queue, servers)', 'ident_ok(queue)', 'cycle_ctx(servers)',
+                   'renew_ok(queue, 0)'],
+         ensures=['srv_ok(servers)', 'link_ok(queue, servers)', 'back_ok(queue, servers)', 'ident_ok(queue)', 'all_strategies_ok()', 'renew_ok(queue, 0)'],
+         modifies=FIND_MODIFIES, props=['C01', 'C03', 'C05'])
+invariant(M + ':Cell._find_placements', 0, 'for app in queue',
+          ['srv_ok(servers)', 'link_ok(queue, servers)', 'back_ok(queue, servers)', 'ident_ok(queue)', 'all_strategies_ok()', 'strat_nodes_ok()',
+           'evicted_ok(evicted, queue, servers, _i)', 'renew_ok(queue, 0)',
+           'implies(_i < len(queue), not queue[_i].renew)',
+           'alive(placement_tracker)'])
+invariant(M + ':Cell._find_placements', 1, 'for evicted_app in reversed_queue',
+          ['srv_ok(servers)', 'link_ok(queue, servers)', 'back_ok(queue, servers)', 'ident_ok(queue)', 'all_strategies_ok()', 'strat_nodes_ok()',
+           'app.server is None', 'app.identity_group_ref is None or app.identity is not None',
+           '_i <= len(queue) - 1 - qidx(queue, app)',
+           'evicted_ok(evicted, queue, servers, qidx(queue, app) + 1)',
+           'renew_ok(queue, 0)'])
